@@ -13,23 +13,30 @@ EITHER zones (documented nowhere, therefore not asserted):
   * reduce_to_site_topology: topology is only compared at site positions; with filter_nodes the retained
     node set is bounded between "kept at a site position" and "kept somewhere" (keep_input_roots can leave
     a root whose only root-edge spans no site);
-  * reduce_to_site_topology + filter_sites: a second simplify sees fewer site positions, so row-level
-    idempotence is not claimed there (the second result is still checked semantically);
+  * reduce_to_site_topology + filter_sites: a second simplify sees fewer site positions when the first one
+    removed a site, so row-level idempotence is not claimed then (the second result is still checked
+    semantically); when every input site position survives, row-level idempotence IS asserted;
   * keep_input_roots: the extra root edges are flushed separately, so adjacent (parent, child) edges may
     stay unsquashed when the parent is one of those extra input roots; squashing is asserted for every other
     parent;
   * a refused call (bad samples, both unary options, migrations, edge metadata): whether the TableCollection
     is left untouched is not documented and not asserted;
   * which exception class a malformed ``samples`` argument raises (TypeError / ValueError / OverflowError /
-    LibraryError are all accepted) - only "does not silently simplify something else" is asserted.
+    LibraryError are all accepted) - only "does not silently simplify something else" is asserted;
+  * whether TableCollection.simplify leaves an index behind (it drops it today); only "the tree sequence built
+    from the result shows the trees of the result rows" is asserted.
 
 Entry points and argument forms driven (AUDIT-C04.md): TableCollection.simplify on a fresh / indexed / copied /
 pickled / file-loaded collection and on the SAME object twice, TreeSequence.simplify on a fresh / file-loaded
-tree sequence, the low-level _tskit.TableCollection.simplify; samples as list / tuple / int32 / int64 / uint32 /
-strided array / list of numpy scalars / positional / keyword; options spelled out, omitted or None when they have
-their documented default; record_provenance True / False / omitted; deprecated filter_zero_mutation_sites.
-The trees of the returned tree sequence (not only its tables) are compared with the output rows.
+tree sequence, the low-level _tskit.TableCollection.simplify; samples as list / tuple / int32 / int64 / uint16 /
+strided array / list of numpy scalars / positional / keyword / explicit flagged list instead of None; options
+spelled out, omitted or None when they have their documented default; record_provenance True / False / omitted;
+deprecated filter_zero_mutation_sites.  The trees of the returned tree sequence (not only its tables) are compared
+with the output rows.  Inputs: lib.gen forest walks and msprime, plus (lib/props/c04_gen.py) forced large
+instances around the simplifier's buffer thresholds, unordered individual parents, metadata schemas / top-level
+metadata / reference sequence, > 64 KiB ragged entries.
 """
+import copy
 import itertools
 import json
 import os
@@ -50,9 +57,20 @@ from lib.tsk import to_tables as _to_tables_plain
 ID = "C04"
 
 LIBERR = (tskit.LibraryError, ValueError)
+ARGERR = (tskit.LibraryError, ValueError, TypeError, OverflowError)
 
 BOOL_OPTS = ("keep_input_roots", "filter_nodes", "filter_sites", "filter_individuals",
              "filter_populations", "update_sample_flags", "reduce_to_site_topology")
+# documented defaults of TableCollection.simplify / TreeSequence.simplify
+DEFAULTS = {"keep_input_roots": False, "filter_nodes": True, "filter_sites": True, "filter_individuals": True,
+            "filter_populations": True, "update_sample_flags": True, "reduce_to_site_topology": False}
+# "(Default: None, treated as True)"
+NONE_MEANS_DEFAULT = ("filter_nodes", "filter_sites", "filter_individuals", "filter_populations",
+                      "update_sample_flags")
+# defaults of the low-level _tskit.TableCollection.simplify (its filter_* default to False)
+LL_DEFAULTS = {"keep_input_roots": False, "filter_nodes": True, "filter_sites": False, "filter_individuals": False,
+               "filter_populations": False, "update_sample_flags": True, "reduce_to_site_topology": False,
+               "keep_unary": False, "keep_unary_in_individuals": False}
 
 
 def all_option_sets():
@@ -66,6 +84,9 @@ def all_option_sets():
 
 
 ALL_OPTS = all_option_sets()  # 384
+DFLT = {"unary": "none", "keep_input_roots": False, "filter_nodes": True, "filter_sites": True,
+        "filter_individuals": True, "filter_populations": True, "update_sample_flags": True,
+        "reduce_to_site_topology": False}
 
 
 def cases(tier, seed):
@@ -76,6 +97,8 @@ def cases(tier, seed):
             yield {"gen": "errors", "k": k}
         elif r in (5, 11):
             yield {"gen": "msprime", "k": k}
+        elif r == 3:
+            yield {"gen": "big", "k": k}  # forced large / structurally extreme instances (c04_gen)
         elif r == 19 and tier == "thorough":
             yield {"gen": "walk-all384", "k": k}
         else:
@@ -85,10 +108,55 @@ def cases(tier, seed):
 # ------------------------------------------------------------------------------- inputs
 
 
+def to_tables(m, with_index=False):
+    """lib.tsk.to_tables, except that table schemas, the top-level schema and the reference sequence are applied
+    AFTER the rows were written: the row bytes are opaque to simplify and are never decoded here."""
+    if not (m.schemas or m.metadata_schema or m.refseq):
+        return _to_tables_plain(m, with_index)
+    p = copy.copy(m)
+    p.schemas, p.metadata_schema, p.metadata, p.refseq = {}, "", b"", None
+    tc = _to_tables_plain(p, False)
+    if m.metadata:
+        tc.metadata = m.metadata
+    for name, sch in m.schemas.items():
+        getattr(tc, name).metadata_schema = tskit.MetadataSchema(json.loads(sch))
+    if m.metadata_schema:
+        tc.metadata_schema = tskit.MetadataSchema(json.loads(m.metadata_schema))
+    if m.refseq is not None:
+        rs = tc.reference_sequence
+        if m.refseq.get("metadata"):
+            rs.metadata = m.refseq["metadata"]
+        if m.refseq.get("metadata_schema"):
+            rs.metadata_schema = tskit.MetadataSchema(json.loads(m.refseq["metadata_schema"]))
+        if m.refseq.get("data"):
+            rs.data = m.refseq["data"]
+        if m.refseq.get("url"):
+            rs.url = m.refseq["url"]
+    if with_index:
+        tc.build_index()
+    return tc
+
+
+def top_level(tc):
+    """Everything simplify has no business touching, as the raw accessors report it."""
+    d = {"metadata": tc.metadata_bytes, "metadata_schema": repr(tc.metadata_schema), "time_units": tc.time_units,
+         "sequence_length": tc.sequence_length}
+    for name in ("nodes", "edges", "sites", "mutations", "individuals", "populations", "migrations"):
+        d["schema:" + name] = repr(getattr(tc, name).metadata_schema)
+    if tc.has_reference_sequence():
+        rs = tc.reference_sequence
+        d["refseq"] = (rs.data, rs.url, rs.metadata_bytes, repr(rs.metadata_schema))
+    else:
+        d["refseq"] = None
+    return d
+
+
 def build(case, rng):
     g = case["gen"]
     if g == "msprime":
         return build_msprime(rng)
+    if g == "big":
+        return build_big(rng)
     big = rng.random() < 0.12
     m = gen.gen_full(rng, max_nodes=18 if big else 9, max_bp=8 if big else 4, max_sites=7,
                      pops=rng.random() < 0.7, meta=False, discrete=rng.random() < 0.3)
@@ -100,20 +168,57 @@ def build(case, rng):
     if rng.random() < 0.2:
         m.metadata = b"top-level\x00meta"
         m.time_units = "generations"
+    decorate_extra(case, rng, m)
     return m
 
 
-def build_msprime(rng):
+def decorate_extra(case, rng, m):
+    if rng.random() < 0.4:
+        c04_gen.unordered_individual_parents(rng, m)
+    if rng.random() < 0.3:
+        c04_gen.schemas_and_refseq(rng, m)
+    if case.get("k", 0) >= 2 and rng.random() < 0.015:
+        c04_gen.blob(rng, m)
+
+
+def build_big(rng):
+    shape = rng.choice(c04_gen.SHAPES)
+    if shape == "msprime":
+        m = build_msprime(rng, large=True)
+    else:
+        m = {"stars": c04_gen.stars, "breakpoints": c04_gen.breakpoints, "chain": c04_gen.chain,
+             "wide-walk": c04_gen.wide_walk}[shape](rng)
+    if rng.random() < 0.4:
+        c04_gen.unordered_individual_parents(rng, m)
+    if rng.random() < 0.3:
+        c04_gen.schemas_and_refseq(rng, m)
+    if rng.random() < 0.25:
+        c04_gen.blob(rng, m)
+    return m
+
+
+def build_msprime(rng, large=False):
     import msprime
 
-    n = rng.randint(2, 6)
-    ts = msprime.sim_ancestry(n, ploidy=rng.choice([1, 2]), sequence_length=rng.choice([10, 20]),
-                              recombination_rate=rng.choice([0.0, 0.05, 0.2]),
-                              population_size=rng.choice([1, 10]),
-                              random_seed=rng.randint(1, 2 ** 31 - 1),
-                              record_full_arg=rng.random() < 0.3,
-                              discrete_genome=rng.random() < 0.7)
-    ts = msprime.sim_mutations(ts, rate=rng.choice([0.0, 0.02, 0.1]), random_seed=rng.randint(1, 2 ** 31 - 1),
+    if large:
+        n = rng.randint(30, 70)
+        kw = dict(sequence_length=rng.choice([100, 1000]), recombination_rate=None, population_size=rng.choice([1, 10]),
+                  record_full_arg=rng.random() < 0.3)
+        kw["recombination_rate"] = rng.choice([0.5, 1.5]) / kw["sequence_length"] / kw["population_size"]
+        mrate = rng.choice([0.0, 0.3, 1.0]) / kw["sequence_length"] / kw["population_size"]
+    else:
+        n = rng.randint(2, 6)
+        kw = dict(sequence_length=rng.choice([10, 20]), recombination_rate=rng.choice([0.0, 0.05, 0.2]),
+                  population_size=rng.choice([1, 10]))
+    ploidy = rng.choice([1, 2])
+    seed = rng.randint(1, 2 ** 31 - 1)
+    if not large:
+        kw["record_full_arg"] = rng.random() < 0.3
+    dg = rng.random() < 0.7
+    ts = msprime.sim_ancestry(n, ploidy=ploidy, random_seed=seed, discrete_genome=dg, **kw)
+    if not large:
+        mrate = rng.choice([0.0, 0.02, 0.1])
+    ts = msprime.sim_mutations(ts, rate=mrate, random_seed=rng.randint(1, 2 ** 31 - 1),
                                discrete_genome=rng.random() < 0.7)
     tc = ts.dump_tables()
     tc.provenances.clear()
@@ -123,6 +228,8 @@ def build_msprime(rng):
     m.metadata = b""
     m.refseq = None
     m.tags.add("msprime")
+    if large:
+        m.tags.add("big:msprime")
     if rng.random() < 0.5:
         gen.decorate_meta(rng, m, tables=("nodes", "sites", "mutations", "individuals", "populations"))
     return m
@@ -153,6 +260,27 @@ def choose_samples(rng, m):
     return s, "all-nodes"
 
 
+def choose_samples_big(rng, m):
+    n = m.num_nodes
+    flagged = m.samples()
+    r = rng.random()
+    if r < 0.3 or not flagged:
+        return None, "none-arg"
+    if r < 0.55:
+        s = list(flagged)
+        rng.shuffle(s)
+        return s, "all-flagged-shuffled"
+    if r < 0.75:
+        s = rng.sample(flagged, rng.randint(max(1, len(flagged) // 2), len(flagged)))
+        return s, "flagged-subset"
+    if r < 0.9:
+        s = rng.sample(range(n), rng.randint(1, min(n, 60)))
+        return s, "any-nodes"
+    s = list(range(n))
+    rng.shuffle(s)
+    return s, "all-nodes"
+
+
 # ------------------------------------------------------------------------------- reference
 
 
@@ -163,11 +291,17 @@ def expected_parent_map(mi, fr, S, opts):
     sample, or at least two of its children are in A (a coalescence of sample lineages), or it has exactly
     one child in A and the unary option in force allows it.  Each retained node hangs from its nearest
     retained ancestor; keep_input_roots additionally hangs each parentless retained node from the root of
-    the input tree it sits in."""
+    the input tree it sits in.
+
+    Returns (parent, kept, A, root_extra, unary) where unary = (#unary nodes of A with an individual,
+    #unary nodes of A without one) - only used to report how discriminating the input was."""
     A = set()
     for s in S:
+        if s in A:
+            continue
         A.update(fr.path_up(s))
     kept = set()
+    un_ind = un_noind = 0
     for u in A:
         if u in S:
             kept.add(u)
@@ -176,7 +310,12 @@ def expected_parent_map(mi, fr, S, opts):
         if kc >= 2:
             kept.add(u)
         elif kc == 1:
-            if opts["unary"] == "ku" or (opts["unary"] == "kuii" and mi.nodes[u][3] != NULL):
+            has_ind = mi.nodes[u][3] != NULL
+            if has_ind:
+                un_ind += 1
+            else:
+                un_noind += 1
+            if opts["unary"] == "ku" or (opts["unary"] == "kuii" and has_ind):
                 kept.add(u)
     parent = {}
     for v in kept:
@@ -193,7 +332,7 @@ def expected_parent_map(mi, fr, S, opts):
                 if r != v:
                     parent[v] = r
                     root_extra.add(r)
-    return parent, kept, A, root_extra
+    return parent, kept, A, root_extra, (un_ind, un_noind)
 
 
 def expected_mutation_node(fr, u, kept, A, root_extra):
@@ -209,15 +348,47 @@ def expected_mutation_node(fr, u, kept, A, root_extra):
     return v
 
 
-# ------------------------------------------------------------------------------- the monitor
+# ------------------------------------------------------------------------------- the call
 
 
-def simplify_kwargs(opts):
-    kw = {k: opts[k] for k in BOOL_OPTS}
+def simplify_kwargs(opts, rng=None):
+    """Keyword arguments for the high-level methods.  With an rng, options that have their documented default
+    value are sometimes omitted or (where the docs say "None, treated as True") passed as None."""
+    kw = {}
+    for k in BOOL_OPTS:
+        v = opts[k]
+        if rng is not None and v == DEFAULTS[k]:
+            r = rng.random()
+            if r < 0.3:
+                continue
+            if r < 0.45 and k in NONE_MEANS_DEFAULT:
+                kw[k] = None
+                continue
+        kw[k] = v
+    spell = rng is not None and rng.random() < 0.3
     if opts["unary"] == "ku":
         kw["keep_unary"] = True
+        if spell:
+            kw["keep_unary_in_individuals"] = rng.choice([None, False])
     elif opts["unary"] == "kuii":
         kw["keep_unary_in_individuals"] = True
+        if spell:
+            kw["keep_unary"] = False
+    elif spell:
+        kw["keep_unary"] = False
+        kw["keep_unary_in_individuals"] = rng.choice([None, False])
+    return kw
+
+
+def ll_kwargs(opts, rng):
+    full = {k: opts[k] for k in BOOL_OPTS}
+    full["keep_unary"] = opts["unary"] == "ku"
+    full["keep_unary_in_individuals"] = opts["unary"] == "kuii"
+    kw = {}
+    for k, v in full.items():
+        if v == LL_DEFAULTS[k] and rng.random() < 0.4:
+            continue
+        kw[k] = rng.choice([v, int(v)])
     return kw
 
 
@@ -232,27 +403,133 @@ def opt_key(opts):
     return s
 
 
-def call_simplify(mi, samples, opts, api, record_provenance, as_array):
-    """Run the real code.  Returns (output RowModel, node_map list, table collection)."""
-    kw = simplify_kwargs(opts)
-    arg = samples
-    if samples is not None and as_array:
-        arg = np.array(samples, dtype=np.int32)
-    tc = to_tables(mi)
-    # the deprecated alias filter_zero_mutation_sites must behave exactly like filter_sites on both entry points
-    # (chosen deterministically from the inputs so that the case descriptor stays the replay)
-    if "filter_sites" in kw and (len(mi.edges) + len(mi.sites) + (0 if samples is None else len(samples))) % 5 == 0:
-        kw["filter_zero_mutation_sites"] = kw.pop("filter_sites")
-    import warnings
+def sample_arg(rng, samples, mi):
+    """The same sample list in one of the accepted argument forms."""
+    if samples is None:
+        if rng.random() < 0.7:
+            return None, "None"
+        # "If not specified or None, use all nodes marked with the IS_SAMPLE flag"
+        return np.array(mi.samples(), dtype=np.int32), "explicit-flagged"
+    f = rng.choice(["list", "list", "list", "int32", "int32", "int64", "tuple", "uint16", "npint-list", "strided"])
+    if f == "uint16" and samples and max(samples) >= 65536:
+        f = "int64"
+    if f == "list":
+        return list(samples), f
+    if f == "tuple":
+        return tuple(samples), f
+    if f == "int32":
+        return np.array(samples, dtype=np.int32), f
+    if f == "int64":
+        return np.array(samples, dtype=np.int64), f
+    if f == "uint16":
+        return np.array(samples, dtype=np.uint16), f
+    if f == "npint-list":
+        return [np.int64(x) if j % 2 else np.int32(x) for j, x in enumerate(samples)], f
+    a = np.full(2 * len(samples), -7, dtype=np.int32)
+    a[::2] = samples
+    return a[::2], f
+
+
+_TMP = None
+
+
+def _tmp_path():
+    global _TMP
+    if _TMP is None:
+        _TMP = tempfile.mkdtemp(prefix="verif-c04-")
+        import atexit
+        import shutil
+        atexit.register(shutil.rmtree, _TMP, True)
+    return os.path.join(_TMP, f"x-{os.getpid()}.trees")
+
+
+TABLE_FORMS = ("fresh", "fresh", "fresh", "indexed", "indexed", "copy", "pickle", "loaded", "ll", "ll")
+TS_FORMS = ("fresh", "fresh", "fresh", "loaded")
+
+
+class Call:
+    """Result of one real simplify call plus everything needed to describe and re-check it."""
+
+
+def call_simplify(mi, samples, opts, api, rng, record_provenance=False, reuse=None, plain=False):
+    """Run the real code on model mi.  api: "tables" | "ts".  record_provenance: True | False | None (= omitted,
+    documented default True).  reuse: an existing TableCollection holding mi to be simplified IN PLACE again.
+    plain: list samples, every option spelled out, fresh object (used where the form must not vary)."""
+    c = Call()
     warnings.simplefilter("ignore", FutureWarning)
+    form = "fresh"
+    if plain:
+        kw = simplify_kwargs(opts)
+        arg, aform = (samples, "None" if samples is None else "list")
+    else:
+        kw = simplify_kwargs(opts, rng)
+        arg, aform = sample_arg(rng, samples, mi)
+        form = rng.choice(TABLE_FORMS if api == "tables" else TS_FORMS)
+    if reuse is not None:
+        form = "reused"
+    # the deprecated alias filter_zero_mutation_sites must behave exactly like filter_sites on both entry points
+    # (chosen deterministically from the inputs, plus a random share)
+    n_in = len(mi.edges) + len(mi.sites) + (0 if samples is None else len(samples))
+    if form != "ll" and kw.get("filter_sites") is not None and (
+            n_in % 5 == 0 or (not plain and rng.random() < 0.08)):
+        kw["filter_zero_mutation_sites"] = kw.pop("filter_sites")
+        aform += "+alias"
+    if record_provenance is not None:
+        kw["record_provenance"] = record_provenance
+    by_keyword = (not plain) and rng.random() < 0.3
+    c.form, c.aform, c.kw, c.api = form, aform, kw, api
+    c.ts_in = c.ts_out = None
+
+    if reuse is not None:
+        tc = reuse
+    elif form == "indexed":
+        tc = to_tables(mi, with_index=True)
+    else:
+        tc = to_tables(mi)
+    c.top_in = top_level(tc)
     if api == "tables":
-        nm = tc.simplify(arg, record_provenance=record_provenance, **kw)
+        if form == "copy":
+            tc = tc.copy()
+        elif form == "pickle":
+            tc = pickle.loads(pickle.dumps(tc))
+        elif form == "loaded":
+            path = _tmp_path()
+            tc.dump(path)
+            tc = tskit.TableCollection.load(path)
+            os.unlink(path)
+        if form == "ll":
+            # low-level entry point: needs an explicit id array and has its own (False) filter defaults
+            ids = mi.samples() if samples is None else list(samples)
+            c.kw = ll_kwargs(opts, rng)
+            nm = tc._ll_tables.simplify(np.array(ids, dtype=np.int32), **c.kw)
+            c.prov_expected = 0
+        else:
+            nm = tc.simplify(samples=arg, **kw) if by_keyword else tc.simplify(arg, **kw)
+            c.prov_expected = 0 if record_provenance is False else 1
         out = tc
     else:
         ts = tc.tree_sequence()
-        ts2, nm = ts.simplify(arg, map_nodes=True, record_provenance=record_provenance, **kw)
+        if form == "loaded":
+            path = _tmp_path()
+            ts.dump(path)
+            ts = tskit.load(path)
+            os.unlink(path)
+        if by_keyword:
+            ts2, nm = ts.simplify(samples=arg, map_nodes=True, **kw)
+        else:
+            ts2, nm = ts.simplify(arg, map_nodes=True, **kw)
+        c.prov_expected = 0 if record_provenance is False else 1
+        c.ts_in, c.ts_out = ts, ts2
         out = ts2.dump_tables()
-    return from_tables(out), [int(x) for x in nm], out
+    c.mo, c.nm, c.out = from_tables(out), [int(x) for x in nm], out
+    return c
+
+
+def describe(c):
+    return f"api={c.api}/{c.form} samples-form={c.aform} kwargs={c.kw}"
+
+
+# ------------------------------------------------------------------------------- the monitor
 
 
 def check_call(ctx, mi, samples_arg, opts, api, rng, record_provenance=False, idem=True):
@@ -260,29 +537,42 @@ def check_call(ctx, mi, samples_arg, opts, api, rng, record_provenance=False, id
     S_list = list(mi.samples()) if samples_arg is None else list(samples_arg)
     S = set(S_list)
     okey = opt_key(opts)
-    what = f"api={api} samples={samples_arg} opts={ {k: v for k, v in opts.items()} }"
-    detail = {"model": mi.to_json(), "samples": samples_arg, "opts": opts, "api": api}
+    state = {"what": f"api={api} samples={samples_arg if n < 40 else str(samples_arg)[:200]} opts={dict(opts)}"}
 
     def bad(key, msg):
-        ctx.violation(key, f"{msg} [{what}]", detail)
+        detail = {"model": mi.to_json() if n <= 64 else {"tags": sorted(mi.tags), "num_nodes": n},
+                  "samples": samples_arg, "opts": opts, "api": api}
+        ctx.violation(key, f"{msg} [{state['what']}]", detail)
 
     try:
-        mo, nm, out_tc = call_simplify(mi, samples_arg, opts, api, record_provenance, rng.random() < 0.5)
+        c = call_simplify(mi, samples_arg, opts, api, rng, record_provenance)
     except LIBERR as e:
         bad("simplify/raised-on-valid-input", f"simplify raised {type(e).__name__}: {e}")
         return None
+    mo, nm, out_tc = c.mo, c.nm, c.out
+    state["what"] += " " + describe(c)
     ctx.count("simplify-calls")
     ctx.count(f"api:{api}")
+    ctx.feature(f"form:{api}/{c.form}")
+    for part in c.aform.split("+"):
+        ctx.feature("samples-form:" + part)
+    if any(v is None for k, v in c.kw.items() if k != "record_provenance"):
+        ctx.feature("kw:None-for-default")
+    if c.form != "ll" and any(k not in c.kw for k in BOOL_OPTS if k != "filter_sites"):
+        ctx.feature("kw:default-omitted")
+    if record_provenance is None:
+        ctx.feature("kw:record_provenance-omitted")
 
-    # ---- validity of the result
+    # ---- validity of the result, and the TREES of the result (not only its rows)
     ctx.count("validity")
     try:
-        out_tc.tree_sequence()
+        ts_out = c.ts_out if c.ts_out is not None else out_tc.tree_sequence()
     except LIBERR as e:
         bad("validity/output-rejected", f"output of simplify is not accepted by tree_sequence(): {e}")
         return None
     if mo.L != mi.L:
         bad("validity/sequence-length", f"sequence_length {mo.L} expected {mi.L}")
+    check_trees(ctx, bad, ts_out, mo)
 
     # ---- node map shape
     ctx.count("node-map")
@@ -299,6 +589,8 @@ def check_call(ctx, mi, samples_arg, opts, api, rng, record_provenance=False, id
         got = [nm[s] for s in S_list]
         if got != list(range(len(S_list))):
             bad("node-map/samples-not-first", f"node_map[samples]={got}, expected 0..{len(S_list) - 1}")
+        if S_list != sorted(S_list):
+            ctx.feature("disc:sample-order-matters")
     else:
         ctx.count("node-map:identity")
         if nm != list(range(n)):
@@ -307,24 +599,30 @@ def check_call(ctx, mi, samples_arg, opts, api, rng, record_provenance=False, id
 
     # ---- genealogy per position
     reduce = opts["reduce_to_site_topology"]
+    ibps = mi.breakpoints()
     if reduce:
         positions = [s[0] for s in mi.sites]
     else:
-        bps = sorted(set(mi.breakpoints()) | set(mo.breakpoints()))
+        bps = sorted(set(ibps) | set(mo.breakpoints()))
         positions = [(a + b) / 2 for a, b in zip(bps[:-1], bps[1:])]
     kept_any = set(S)
+    rex_any = set()
+    un_ind = un_noind = 0
     gen_ok = True
     for x in positions:
         fr = forest(mi, x)
-        par, kept, A, rex = expected_parent_map(mi, fr, S, opts)
+        par, kept, A, rex, un = expected_parent_map(mi, fr, S, opts)
         kept_any.update(par.keys())
         kept_any.update(par.values())
+        rex_any |= rex
+        un_ind += un[0]
+        un_noind += un[1]
         ctx.count("genealogy")
         unmapped = [u for u in set(par) | set(par.values()) if nm[u] == NULL]
         if unmapped:
             bad(f"genealogy/{okey}/node-dropped",
                 f"at x={x} nodes {sorted(unmapped)} belong to the induced genealogy but node_map gives NULL; "
-                f"expected parent map {par}")
+                f"expected parent map {par if len(par) < 40 else '...'}")
             gen_ok = False
             continue
         exp = {nm[c]: nm[p] for c, p in par.items()}
@@ -332,9 +630,25 @@ def check_call(ctx, mi, samples_arg, opts, api, rng, record_provenance=False, id
         if got != exp:
             inv = {v: u for u, v in enumerate(nm) if v != NULL}
             got_in = {inv.get(c, f"out{c}"): inv.get(p, f"out{p}") for c, p in got.items()}
+            if len(par) > 40:  # big instances: only the differing links
+                keys = set(got_in) | set(par)
+                got_in = {k: got_in.get(k) for k in keys if got_in.get(k) != par.get(k)}
+                par = {k: par.get(k) for k in got_in}
             bad(f"genealogy/{okey}",
-                f"at x={x} output forest (input ids) {got_in} differs from induced genealogy {par}; node_map={nm}")
+                f"at x={x} output forest (input ids) {got_in} differs from induced genealogy {par}; "
+                f"node_map={nm if n < 40 else '...'}")
             gen_ok = False
+    # how discriminating was this call?
+    if un_ind + un_noind:
+        ctx.feature("disc:unary-present")
+        if opts["unary"] == "kuii" and un_ind and un_noind:
+            ctx.feature("disc:kuii-keeps-some-drops-some")
+        elif opts["unary"] == "kuii" and un_ind:
+            ctx.feature("disc:kuii-keeps")
+        elif opts["unary"] == "kuii":
+            ctx.feature("disc:kuii-drops")
+    if rex_any:
+        ctx.feature("disc:input-root-above-mrca")
     if reduce:
         ctx.count("reduce:trees-have-sites")
         obps = mo.breakpoints()
@@ -346,13 +660,15 @@ def check_call(ctx, mi, samples_arg, opts, api, rng, record_provenance=False, id
                 if not any(a <= s[0] < b for s in mi.sites):
                     bad("reduce/tree-without-site", f"output tree [{a},{b}) contains no site; sites at "
                         f"{[s[0] for s in mi.sites]}")
+            if any(not any(a <= s[0] < b for s in mi.sites) for a, b in zip(ibps[:-1], ibps[1:])):
+                ctx.feature("disc:reduce-siteless-input-tree")
         # the full (non-reduced) retained set bounds the node set from above
         upper = set(S)
-        ibps = mi.breakpoints()
         for a, b in zip(ibps[:-1], ibps[1:]):
-            par, _, _, _ = expected_parent_map(mi, forest(mi, (a + b) / 2), S, opts)
+            par, _, _, rex, _ = expected_parent_map(mi, forest(mi, (a + b) / 2), S, opts)
             upper.update(par.keys())
             upper.update(par.values())
+            rex_any |= rex
     else:
         upper = kept_any
 
@@ -377,10 +693,12 @@ def check_call(ctx, mi, samples_arg, opts, api, rng, record_provenance=False, id
             how = "reduce_to_site_topology+keep_input_roots" if (reduce and opts["keep_input_roots"]) else okey
             bad(f"node-set/unreferenced-node-kept/{how}",
                 f"filter_nodes=True but input nodes {loose} (output {[nm[u] for u in loose]}) are kept although no "
-                f"output edge references them and they are not chosen samples; output edges {mo.edges}")
+                f"output edge references them and they are not chosen samples; output edges {mo.edges[:50]}")
     # population / individual id maps derived from the node rows
     pop_map, ind_map = {}, {}
     ctx.count("node-rows")
+    if S != set(mi.samples()):
+        ctx.feature("disc:flags-must-change" if opts["update_sample_flags"] else "disc:flags-must-stay")
     for u in range(n):
         v = nm[u]
         if v == NULL:
@@ -396,13 +714,17 @@ def check_call(ctx, mi, samples_arg, opts, api, rng, record_provenance=False, id
         if to_ != ti:
             bad("node-row/time", f"node {u}->{v} time {to_} expected {ti}")
         if mdo != mdi:
-            bad("node-row/metadata", f"node {u}->{v} metadata {mdo!r} expected {mdi!r}")
+            bad("node-row/metadata", f"node {u}->{v} metadata {mdo[:40]!r} expected {mdi[:40]!r}")
         for name, a, b, mp in (("population", pi, po, pop_map), ("individual", ii, io, ind_map)):
             if (a == NULL) != (b == NULL):
                 bad(f"node-row/{name}", f"node {u}->{v} {name} {b} but input {a}")
             elif a != NULL:
                 if mp.setdefault(a, b) != b:
                     bad(f"node-row/{name}", f"node {u}->{v}: input {name} {a} mapped to both {mp[a]} and {b}")
+    if len(pop_map) < len(mi.populations):
+        ctx.feature("disc:population-unreferenced:" + ("filtered" if opts["filter_populations"] else "kept"))
+    if len(ind_map) < len(mi.individuals):
+        ctx.feature("disc:individual-unreferenced:" + ("filtered" if opts["filter_individuals"] else "kept"))
     check_ref_table(ctx, bad, "populations", opts["filter_populations"], pop_map,
                     [p for p in mi.populations], [p for p in mo.populations])
     # individuals: parents are remapped, removed parents become NULL
@@ -412,62 +734,88 @@ def check_call(ctx, mi, samples_arg, opts, api, rng, record_provenance=False, id
                              [(f, loc, md) for f, loc, _, md in ind_rows_in],
                              [(f, loc, md) for f, loc, _, md in ind_rows_out])
     if ok_map:
+        ctx.count("individual-parents")
         full = ind_map if opts["filter_individuals"] else {j: j for j in range(len(ind_rows_in))}
+        fwd = lost = False
         for a, b in full.items():
             pin = ind_rows_in[a][2]
             pexp = tuple(full.get(p, NULL) if p != NULL else NULL for p in pin)
+            fwd = fwd or any(p > a for p in pin)
+            lost = lost or any(p != NULL and p not in full for p in pin)
             if 0 <= b < len(ind_rows_out) and ind_rows_out[b][2] != pexp:
                 bad("individuals/parents", f"individual {a}->{b} parents {ind_rows_out[b][2]} expected {pexp} "
                     f"(input {pin}, id map {full})")
+        if opts["filter_individuals"] and len(ind_map) < len(mi.individuals):
+            if fwd:
+                ctx.feature("disc:individual-parent-listed-later+filtered")
+            if lost:
+                ctx.feature("disc:individual-parent-removed")
 
     # ---- sites, mutations, genotypes
     check_sites_mutations(ctx, bad, mi, mo, nm, S, S_list, opts, okey)
 
-    # ---- edges squashed
-    if not opts["keep_input_roots"]:
-        ctx.count("edges-squashed")
-        by = {}
-        for l, r, p, c, _ in mo.edges:
-            by.setdefault((p, c), []).append((l, r))
-        for (p, c), iv in by.items():
-            iv.sort()
-            for (l1, r1), (l2, r2) in zip(iv[:-1], iv[1:]):
-                if r1 == l2:
-                    bad("edges/not-squashed", f"output edges ({l1},{r1}) and ({l2},{r2}) for parent {p} child {c} "
-                        f"are adjacent and not merged")
+    # ---- edges squashed (EITHER zone: parents that are extra input roots somewhere, see the docstring)
+    ctx.count("edges-squashed")
+    exempt = {nm[r] for r in rex_any if nm[r] != NULL}
+    by = {}
+    for l, r, p, ch, _ in mo.edges:
+        by.setdefault((p, ch), []).append((l, r))
+    for (p, ch), iv in by.items():
+        if p in exempt:
+            continue
+        iv.sort()
+        for (l1, r1), (l2, r2) in zip(iv[:-1], iv[1:]):
+            if r1 == l2:
+                bad("edges/not-squashed", f"output edges ({l1},{r1}) and ({l2},{r2}) for parent {p} child {ch} "
+                    f"are adjacent and not merged")
+                break
 
     # ---- everything else is untouched
     ctx.count("top-level")
     if mo.migrations:
         bad("top-level/migrations", "output has migrations")
-    for attr in ("metadata", "metadata_schema", "time_units", "schemas", "refseq"):
-        a, b = getattr(_norm(mi), attr), getattr(mo, attr)
+    top_out = top_level(out_tc)
+    for attr, a in c.top_in.items():
+        b = top_out[attr]
         if a != b:
-            bad(f"top-level/{attr}", f"{attr} {b!r} expected {a!r}")
+            bad(f"top-level/{attr.split(':')[0]}", f"{attr} {b!r} expected {a!r}")
+    if mi.schemas or mi.refseq:
+        ctx.count("top-level:schemas-or-refseq")
     ctx.count("provenance")
-    nprov = len(mi.provenances) + (1 if record_provenance else 0)
+    nprov = len(mi.provenances) + c.prov_expected
     if len(mo.provenances) != nprov or mo.provenances[:len(mi.provenances)] != mi.provenances:
         bad("provenance/rows", f"{len(mo.provenances)} provenance rows, expected {nprov} "
             f"(record_provenance={record_provenance}) with the input rows first")
-    elif record_provenance and '"simplify"' not in mo.provenances[-1][1]:
-        bad("provenance/record", f"provenance record does not name simplify: {mo.provenances[-1][1][:100]}")
+    elif c.prov_expected:
+        check_provenance_record(ctx, bad, mo.provenances[-1])
+
+    # ---- TreeSequence.simplify never modifies its input
+    if c.ts_in is not None and rng.random() < 0.25:
+        ctx.count("input-untouched")
+        if from_tables(c.ts_in.dump_tables()).signature() != mi.signature():
+            bad("input-mutated", "TreeSequence.simplify changed the tree sequence it was called on")
 
     # ---- idempotence (row equality is the claim)
     if idem and not unreferenced:
         S2 = [nm[s] for s in S_list]
+        reuse = out_tc if (api == "tables" and rng.random() < 0.5) else None
         try:
-            mo2, nm2, _ = call_simplify(mo, S2, opts, api, False, False)
+            c2 = call_simplify(mo, S2, opts, api, rng, False, reuse=reuse, plain=reuse is None)
         except LIBERR as e:
             bad("idempotence/raised", f"second simplify raised {type(e).__name__}: {e}")
             return mo
-        if reduce and opts["filter_sites"]:
+        mo2, nm2 = c2.mo, c2.nm
+        if reuse is not None:
+            ctx.count("idempotence:same-object")
+            mo2.provenances = mo2.provenances[:len(mo.provenances)]
+        if reduce and opts["filter_sites"] and {s[0] for s in mo.sites} != {s[0] for s in mi.sites}:
             ctx.count("idempotence:semantic-only")
         else:
             ctx.count("idempotence")
             for t in ("nodes", "edges", "sites", "mutations", "individuals", "populations", "migrations"):
                 a, b = getattr(mo, t), getattr(mo2, t)
                 if a != b:
-                    bad(f"idempotence/{t}", f"second simplify changed {t}: first {a} second {b}")
+                    bad(f"idempotence/{t}", f"second simplify changed {t}: first {_short(a)} second {_short(b)}")
                     break
             else:
                 if opts["filter_nodes"] and nm2 != list(range(len(mo.nodes))):
@@ -475,17 +823,47 @@ def check_call(ctx, mi, samples_arg, opts, api, rng, record_provenance=False, id
     return mo
 
 
-def _norm(mi):
-    """What from_tables reports for an input model that was written with to_tables."""
-    class X:
-        pass
-    x = X()
-    x.metadata = mi.metadata
-    x.metadata_schema = mi.metadata_schema
-    x.time_units = mi.time_units
-    x.schemas = {k: v for k, v in mi.schemas.items() if v}
-    x.refseq = mi.refseq
-    return x
+def _short(rows):
+    s = repr(rows)
+    return s if len(s) < 1500 else s[:1500] + "..."
+
+
+def check_trees(ctx, bad, ts, mo):
+    """The tree sequence made from the result must show the trees that the result ROWS describe (a stale index
+    or a node table that was not reloaded would show something else)."""
+    ctx.count("trees-vs-rows")
+    if ts.num_nodes != len(mo.nodes) or ts.num_edges != len(mo.edges):
+        bad("trees/size", f"tree sequence has {ts.num_nodes} nodes / {ts.num_edges} edges, tables have "
+            f"{len(mo.nodes)} / {len(mo.edges)}")
+        return
+    bps = mo.breakpoints()
+    got = [float(x) for x in ts.breakpoints()]
+    if got != bps:
+        bad("trees/breakpoints", f"trees change at {got[:60]}, the edge rows change at {bps[:60]}")
+        return
+    for tree in ts.trees():
+        a, b = tree.interval
+        exp = mo.forest_at((a + b) / 2)
+        gotp = {int(k): int(v) for k, v in tree.parent_dict.items()}
+        if gotp != exp:
+            diff = {k: (gotp.get(k), exp.get(k)) for k in set(gotp) | set(exp) if gotp.get(k) != exp.get(k)}
+            bad("trees/parent", f"tree on [{a},{b}) of the simplified tree sequence has (tree, rows) parents "
+                f"{dict(list(diff.items())[:20])}")
+            return
+
+
+def check_provenance_record(ctx, bad, row):
+    ctx.count("provenance-record")
+    stamp, rec = row
+    try:
+        d = json.loads(rec)
+        ok = d["parameters"]["command"] == "simplify" and d["software"]["name"] == "tskit" and "schema_version" in d
+    except (ValueError, KeyError, TypeError):
+        ok = False
+    if not ok:
+        bad("provenance/record", f"provenance record is not a tskit provenance naming simplify: {rec[:200]}")
+    if not stamp:
+        bad("provenance/timestamp", "provenance row without timestamp")
 
 
 def check_ref_table(ctx, bad, name, filt, id_map, rows_in, rows_out):
@@ -493,7 +871,8 @@ def check_ref_table(ctx, bad, name, filt, id_map, rows_in, rows_out):
     ctx.count(f"refs:{name}")
     if not filt:
         if rows_out != rows_in:
-            bad(f"{name}/altered-without-filter", f"filter_{name}=False but table changed: {rows_out} expected {rows_in}")
+            bad(f"{name}/altered-without-filter", f"filter_{name}=False but table changed: {_short(rows_out)} "
+                f"expected {_short(rows_in)}")
             return False
         wrong = {a: b for a, b in id_map.items() if a != b}
         if wrong:
@@ -509,7 +888,7 @@ def check_ref_table(ctx, bad, name, filt, id_map, rows_in, rows_out):
         return False
     for a, b in id_map.items():
         if rows_out[b] != rows_in[a]:
-            bad(f"{name}/row", f"{name} {a}->{b} row {rows_out[b]} expected {rows_in[a]}")
+            bad(f"{name}/row", f"{name} {a}->{b} row {_short(rows_out[b])} expected {_short(rows_in[a])}")
             return False
     return True
 
@@ -518,17 +897,31 @@ def check_sites_mutations(ctx, bad, mi, mo, nm, S, S_list, opts, okey):
     pos_in = {s[0]: j for j, s in enumerate(mi.sites)}
     # expected surviving mutations: those sitting above at least one chosen sample
     surv = []  # (input mutation id, expected input-id node)
+    at = {}
+    moved = False
     for k, (sj, u, d, p, t, md) in enumerate(mi.mutations):
-        x = mi.sites[sj][0]
-        fr = forest(mi, x)
-        par, kept, A, rex = expected_parent_map(mi, fr, S, opts)
+        if sj not in at:
+            fr = forest(mi, mi.sites[sj][0])
+            at[sj] = (fr,) + expected_parent_map(mi, fr, S, opts)
+        fr, par, kept, A, rex, _ = at[sj]
         if u in A:
-            surv.append((k, expected_mutation_node(fr, u, kept, A, rex)))
+            tgt = expected_mutation_node(fr, u, kept, A, rex)
+            surv.append((k, tgt))
+            moved = moved or tgt != u
+            if u in rex and u not in kept:
+                ctx.feature("disc:mutation-on-extra-input-root")
+    if moved:
+        ctx.feature("disc:mutation-moved-to-descendant")
+    if len(surv) < len(mi.mutations):
+        ctx.feature("disc:mutation-dropped")
     surv_sites = {mi.mutations[k][0] for k, _ in surv}
+    if len(surv_sites) < len(mi.sites):
+        ctx.feature("disc:site-unreferenced:" + ("filtered" if opts["filter_sites"] else "kept"))
     ctx.count("sites-filter")
     if not opts["filter_sites"]:
         if mo.sites != mi.sites:
-            bad("sites/altered-without-filter", f"filter_sites=False but sites {mo.sites} expected {mi.sites}")
+            bad("sites/altered-without-filter", f"filter_sites=False but sites {_short(mo.sites)} expected "
+                f"{_short(mi.sites)}")
             return
         site_map = {j: j for j in range(len(mi.sites))}
     else:
@@ -538,7 +931,8 @@ def check_sites_mutations(ctx, bad, mi, mo, nm, S, S_list, opts, okey):
         for j2, s in enumerate(mo.sites):
             j = pos_in.get(s[0])
             if j is None or mi.sites[j] != s or j <= last:
-                bad("sites/row", f"output site {j2} {s} is not an input site row in order (input {mi.sites})")
+                bad("sites/row", f"output site {j2} {_short(s)} is not an input site row in order (input "
+                    f"{_short(mi.sites)})")
                 okk = False
                 break
             site_map[j] = j2
@@ -559,7 +953,7 @@ def check_sites_mutations(ctx, bad, mi, mo, nm, S, S_list, opts, okey):
     mut_map = {k: k2 for k2, (k, _) in enumerate(surv)}
     if len(mo.mutations) != len(surv):
         bad("mutations/set", f"{len(mo.mutations)} output mutations, expected {len(surv)}: the input mutations "
-            f"{[k for k, _ in surv]} sit above a chosen sample; output {mo.mutations}")
+            f"{[k for k, _ in surv]} sit above a chosen sample; output {_short(mo.mutations)}")
     else:
         for k2, (k, unode) in enumerate(surv):
             sj, u, d, p, t, md = mi.mutations[k]
@@ -569,8 +963,8 @@ def check_sites_mutations(ctx, bad, mi, mo, nm, S, S_list, opts, okey):
             if got != exp:
                 fld = [f for f, a, b in zip(("site", "node", "derived_state", "parent", "time", "metadata"), got, exp)
                        if a != b]
-                bad(f"mutations/{'+'.join(fld)}", f"input mutation {k} {mi.mutations[k]} became {got}, expected {exp} "
-                    f"(node_map={nm})")
+                bad(f"mutations/{'+'.join(fld)}", f"input mutation {k} {_short(mi.mutations[k])} became "
+                    f"{_short(got)}, expected {_short(exp)} (node_map={nm if len(nm) < 40 else '...'})")
                 break
         else:
             ctx.count("mutation-parents")
@@ -580,11 +974,12 @@ def check_sites_mutations(ctx, bad, mi, mo, nm, S, S_list, opts, okey):
                 bad("mutations/parents-inconsistent", f"output mutation parents {got}, recomputed from the output "
                     f"topology {ref}")
     # genotypes of every chosen sample at every retained site
+    out_site = {s[0]: q for q, s in enumerate(mo.sites)}
     for s2 in mo.sites:
         j = pos_in.get(s2[0])
         if j is None:
             continue
-        j2 = [q for q, s in enumerate(mo.sites) if s[0] == s2[0]][0]
+        j2 = out_site[s2[0]]
         fi = forest(mi, s2[0])
         fo = forest(mo, s2[0])
         for s in S_list:
@@ -594,7 +989,8 @@ def check_sites_mutations(ctx, bad, mi, mo, nm, S, S_list, opts, okey):
             a = allele_at(mi, fi, j, s)
             b = allele_at(mo, fo, j2, nm[s])
             if a != b:
-                bad(f"genotype/{okey}", f"sample {s}->{nm[s]} at site {j} (x={s2[0]}) has allele {b!r}, was {a!r}")
+                bad(f"genotype/{okey}", f"sample {s}->{nm[s]} at site {j} (x={s2[0]}) has allele {b[:40]!r}, "
+                    f"was {a[:40]!r}")
 
 
 # ------------------------------------------------------------------------------- error classes
@@ -606,11 +1002,11 @@ def run_errors(case, ctx, rng):
     detail = {"model": m.to_json()}
     api = rng.choice(["tables", "ts"])
 
-    def expect_raise(key, what, fn):
+    def expect_raise(key, what, fn, errs=LIBERR):
         ctx.count("errors")
         try:
             fn()
-        except LIBERR:
+        except errs:
             return
         ctx.violation(key, f"{what} did not raise", detail)
 
@@ -631,6 +1027,17 @@ def run_errors(case, ctx, rng):
                      lambda: simp(to_tables(m), s))
     expect_raise("errors/both-unary-options-accepted", "keep_unary and keep_unary_in_individuals together",
                  lambda: simp(to_tables(m), keep_unary=True, keep_unary_in_individuals=True))
+    # ids that only become valid after wrapping to 32 bits, or after truncation to an integer, must not be
+    # simplified as if they were that id (any of the argument errors is fine)
+    if n >= 1:
+        u = rng.randrange(n)
+        for bad_arg, what in ((np.array([u + 2 ** 32], dtype=np.int64), "int64 id = valid id + 2**32"),
+                              ([u + 2 ** 32], "Python int id = valid id + 2**32"),
+                              (np.array([u - 2 ** 32], dtype=np.int64), "int64 id = valid id - 2**32"),
+                              (np.array([u + 0.5]), "float64 id"),
+                              ([[u]], "nested list")):
+            expect_raise("errors/malformed-samples-accepted", f"simplify(samples={bad_arg!r}) ({what})",
+                         lambda: simp(to_tables(m), bad_arg), ARGERR)
     # migrations are refused
     m2 = m.copy()
     if not m2.populations:
@@ -639,6 +1046,14 @@ def run_errors(case, ctx, rng):
         m2.migrations = [(0.0, m2.L, rng.randrange(n), 0, 0, 1.0, b"")]
         expect_raise("errors/migrations-accepted", "simplify on a collection with migrations",
                      lambda: to_tables(m2).simplify())
+    # edges with metadata are refused (TSK_ERR_CANT_PROCESS_EDGES_WITH_METADATA): the output edges are new rows,
+    # so accepting them would silently lose the metadata
+    if m.edges:
+        m4 = m.copy()
+        j = rng.randrange(len(m4.edges))
+        m4.edges[j] = m4.edges[j][:4] + (b"x",)
+        expect_raise("errors/edge-metadata-accepted", "simplify on a collection whose edges carry metadata",
+                     lambda: simp(to_tables(m4)))
     # unsorted edges are refused (TableCollection only: no tree sequence can be built)
     if len(m.edges) >= 2:
         tp = sorted({m.time(e[2]) for e in m.edges})
@@ -647,7 +1062,32 @@ def run_errors(case, ctx, rng):
             m3.edges = sorted(m.edges, key=lambda e: -m.time(e[2]))
             expect_raise("errors/unsorted-edges-accepted", "TableCollection.simplify on edges sorted by decreasing "
                          "parent time", lambda: to_tables(m3).simplify())
+    run_empty(ctx, rng)
     ctx.sig(("errors", m.signature()), nontrivial=n > 0)
+
+
+def run_empty(ctx, rng):
+    """Zero nodes / zero rows everywhere: simplify must return an empty map and an empty valid result."""
+    ctx.count("empty-collection")
+    L = rng.choice([1.0, 10.0])
+    tc = tskit.TableCollection(L)
+    kw = simplify_kwargs(rng.choice(ALL_OPTS), rng)
+    arg = rng.choice([None, [], (), np.array([], dtype=np.int32), np.array([], dtype=np.float64)])
+    what = f"empty TableCollection.simplify({arg!r}, **{kw})"
+    try:
+        if rng.random() < 0.5:
+            nm = tc.simplify(arg, record_provenance=False, **kw)
+            out = tc
+        else:
+            ts, nm = tc.tree_sequence().simplify(arg, map_nodes=True, record_provenance=False, **kw)
+            out = ts.dump_tables()
+        out.tree_sequence()
+    except LIBERR as e:
+        ctx.violation("simplify/raised-on-valid-input", f"{what} raised {type(e).__name__}: {e}", None)
+        return
+    mo = from_tables(out)
+    if len(nm) != 0 or any(getattr(mo, t) for t in RowModel.TABLES) or mo.L != L:
+        ctx.violation("empty/not-empty", f"{what} returned node map {list(nm)} and tables {mo.to_json()}", None)
 
 
 # ------------------------------------------------------------------------------- driver
@@ -659,8 +1099,16 @@ def run_case(case, ctx):
         run_errors(case, ctx, rng)
         return
     m = build(case, rng)
-    for t in gen.topo_tags(m):
+    is_big = case["gen"] == "big"
+    ntrees = len(m.breakpoints()) - 1
+    tags = set(m.tags) if (is_big or ntrees > 60) else gen.topo_tags(m)
+    for t in tags:
         ctx.feature(t)
+    ebps = {e[0] for e in m.edges} | {e[1] for e in m.edges}
+    if any(s[0] in ebps and 0 < s[0] for s in m.sites):
+        ctx.feature("site-on-breakpoint")
+    if any(s[0] == 0 for s in m.sites):
+        ctx.feature("site-at-0")
     ctx.sig(m.signature(), nontrivial=len(m.edges) > 0)
     if case["k"] < 2:
         ctx.sample({"case": case, "model": m.to_json()})
@@ -671,19 +1119,35 @@ def run_case(case, ctx):
             check_call(ctx, m, samples, opts, rng.choice(["tables", "ts"]), rng, idem=rng.random() < 0.25)
         ctx.count("all-384-sweeps")
         return
+    if is_big:
+        ctx.count("big-cases")
+        ncalls = 4 if case["tier"] == "quick" else 8
+        # first call: every flagged sample with the defaults (the star queues then hold exactly their child count),
+        # second: unary retention + input roots (every node of a chain survives), then random option sets
+        picks = [DFLT, dict(rng.choice(ALL_OPTS), unary=rng.choice(["ku", "kuii"]), keep_input_roots=True)]
+        picks += rng.sample(ALL_OPTS, ncalls - 2)
+        for j, opts in enumerate(picks):
+            samples, how = (None, "none-arg") if j == 0 else choose_samples_big(rng, m)
+            ctx.feature("samples:" + how)
+            ctx.feature("opt:" + opt_key(opts))
+            check_call(ctx, m, samples, opts, rng.choice(["tables", "ts"]), rng,
+                       record_provenance=rng.choice([False, True, None]), idem=rng.random() < 0.5)
+        return
     ncalls = 12 if case["tier"] == "quick" else 16
+    if ntrees > 25:
+        # the msprime family is heavy-tailed (hundreds of trees): same cost per input, fewer calls on the giants
+        ncalls = max(4, ncalls * 25 // ntrees)
+        ctx.feature("many-trees:fewer-calls")
     picks = rng.sample(ALL_OPTS, ncalls - 2)
     # the documented defaults are always exercised, with and without keyword arguments
-    dflt = {"unary": "none", "keep_input_roots": False, "filter_nodes": True, "filter_sites": True,
-            "filter_individuals": True, "filter_populations": True, "update_sample_flags": True,
-            "reduce_to_site_topology": False}
-    picks = [dflt, dict(dflt, keep_input_roots=True)] + picks
+    picks = [DFLT, dict(DFLT, keep_input_roots=True)] + picks
     for opts in picks:
         samples, how = choose_samples(rng, m)
         ctx.feature("samples:" + how)
         ctx.feature("opt:" + opt_key(opts))
         api = rng.choice(["tables", "ts"])
-        check_call(ctx, m, samples, opts, api, rng, record_provenance=rng.random() < 0.3)
+        r = rng.random()
+        check_call(ctx, m, samples, opts, api, rng, record_provenance=True if r < 0.2 else (None if r < 0.4 else False))
     # default-argument forms and map_nodes=False agree with the explicit call
     check_default_forms(ctx, m, rng)
 
